@@ -1,5 +1,436 @@
 /-
-C14 — property theorems (stub; nothing proved yet).
+C14 — nucleation quantities obey classical nucleation theory for every site type.
+
+Theorems about the definitions REGENERATED from the kawin sources (`KawinV.Gen.C14`, file
+Gen/C14Nuc.lean, rewritten from /repo by tools/corr/C14.py on every run) and about the hand model
+`KawinV.Nuc` (Model/NucSites.lean) of the guards, the cached-factor state machine, the nucleation
+sites and the per-phase nucleation step; both are tied to the implementation by tools/corr/C14.py.
+`α` is any linearly ordered field with an arbitrary interpretation of the transcendental atoms
+(`Trans α`); the theorems marked (ℝ) use Mathlib's real functions.
 -/
+import KawinV.Model.NucSites
+import Mathlib.Tactic.Ring
+import Mathlib.Tactic.Linarith
+import Mathlib.Tactic.FieldSimp
+import Mathlib.Tactic.NormNum
+import Mathlib.Tactic.Positivity
+import Mathlib.Algebra.Order.Field.Basic
+import Mathlib.Analysis.SpecialFunctions.Trigonometric.Inverse
+import Mathlib.Analysis.SpecialFunctions.Trigonometric.Arctan
+import Mathlib.Analysis.SpecialFunctions.Pow.Real
+
+set_option linter.unusedSectionVars false
+set_option linter.unusedVariables false
+set_option linter.unusedSimpArgs false
+set_option linter.style.longLine false
+
 namespace KawinV.Props.C14
+open KawinV KawinV.Gen.C14 KawinV.Nuc
+
+section field
+variable {α : Type} [Field α] [LinearOrder α] [IsStrictOrderedRing α] [Trans α]
+
+/-! ### the geometric identity  area − 2k·gbRemoval = 3·volume  (every k, every interpretation of π, √, arcsin, arccos) -/
+
+theorem identity_bulk (k : α) :
+    bulk_areaFactor k - 2 * k * bulk_gbRemoval k = 3 * bulk_volumeFactor k := by
+  simp only [bulk_areaFactor, bulk_gbRemoval, bulk_volumeFactor, npow]; ring
+
+theorem identity_boundary (k : α) :
+    gb_areaFactor k - 2 * k * gb_gbRemoval k = 3 * gb_volumeFactor k := by
+  simp only [gb_areaFactor, gb_gbRemoval, gb_volumeFactor, npow]; ring
+
+theorem identity_edge (k : α) :
+    edge_areaFactor k - 2 * k * edge_gbRemoval k = 3 * edge_volumeFactor k := by
+  simp only [edge_areaFactor, edge_gbRemoval, edge_volumeFactor, npow]; ring
+
+theorem identity_corner (k : α) :
+    corner_areaFactor k - 2 * k * corner_gbRemoval k = 3 * corner_volumeFactor k := by
+  simp only [corner_areaFactor, corner_gbRemoval, corner_volumeFactor, npow]; ring
+
+/-- the identity for every built-in site type, in terms of the model's factor selector -/
+theorem identity_all (s : Site) (k : α) :
+    formula s .area k - 2 * k * formula s .rem k = 3 * formula s .vol k := by
+  cases s
+  · exact identity_bulk k
+  · simp only [formula, disl_areaFactor, disl_gbRemoval, disl_volumeFactor, npow]; ring
+  · exact identity_boundary k
+  · exact identity_edge k
+  · exact identity_corner k
+
+
+/-! ### consequences for the barrier: with γ_gb = 2kγ the critical radius is the sphere's and the barrier
+is the spherical barrier times volume/(4π/3) -/
+
+/-- `a·γ − b·γ_gb = 3·c·γ` when `γ_gb = 2kγ` and the factors satisfy the identity -/
+theorem capillary_term (a b c γ k : α) (hid : a - 2 * k * b = 3 * c) :
+    a * γ - b * (2 * k * γ) = 3 * c * γ := by
+  have : a = 3 * c + 2 * k * b := by linarith
+  rw [this]; ring
+
+theorem nbp_Rcrit_sphere (a b c γ k dG : α) (hid : a - 2 * k * b = 3 * c) (hc : c ≠ 0) (hdG : dG ≠ 0) :
+    nbp_Rcrit a b c γ (2 * k * γ) dG = 2 * γ / dG := by
+  simp only [nbp_Rcrit, capillary_term a b c γ k hid]
+  field_simp
+
+/-- the same statement against the regenerated bulk formula with thermodynamic factor 1 (sphere) -/
+theorem nbp_Rcrit_eq_bulk (a b c γ k dG : α) (hid : a - 2 * k * b = 3 * c) (hc : c ≠ 0) (hdG : dG ≠ 0) :
+    nbp_Rcrit a b c γ (2 * k * γ) dG = nb_bulk_Rcrit 1 γ dG := by
+  rw [nbp_Rcrit_sphere a b c γ k dG hid hc hdG]; simp only [nb_bulk_Rcrit]; ring
+
+/-- at ANY radius (the code evaluates at the clamped one): `Gcrit(R) = c·R²·(3γ − dG·R)` -/
+theorem nbp_Gcrit_form (a b c γ k dG R : α) (hid : a - 2 * k * b = 3 * c) :
+    nbp_Gcrit a b c γ (2 * k * γ) dG R = c * (R ^ 2 * (3 * γ - dG * R)) := by
+  simp only [nbp_Gcrit, capillary_term a b c γ k hid, npow]; ring
+
+/-- at the critical radius the barrier is (volume factor)/(4π/3) times the spherical barrier -/
+theorem nbp_Gcrit_sphere (a b c γ k dG : α) (hid : a - 2 * k * b = 3 * c) (hdG : dG ≠ 0)
+    (hpi : (Trans.pi : α) ≠ 0) :
+    nbp_Gcrit a b c γ (2 * k * γ) dG (2 * γ / dG)
+      = c / (4 * Trans.pi / 3) * nb_bulk_Gcrit γ (2 * γ / dG) := by
+  rw [nbp_Gcrit_form a b c γ k dG _ hid]
+  simp only [nb_bulk_Gcrit, npow]
+  field_simp
+  ring
+
+/-- both consequences for every built-in site type, through the regenerated factor formulas -/
+theorem site_Rcrit_sphere (s : Site) (k γ dG : α) (hc : formula s .vol k ≠ 0) (hdG : dG ≠ 0) :
+    nbp_Rcrit (formula s .area k) (formula s .rem k) (formula s .vol k) γ (2 * k * γ) dG
+      = nb_bulk_Rcrit 1 γ dG :=
+  nbp_Rcrit_eq_bulk _ _ _ γ k dG (identity_all s k) hc hdG
+
+theorem site_Gcrit_sphere (s : Site) (k γ dG : α) (hdG : dG ≠ 0) (hpi : (Trans.pi : α) ≠ 0) :
+    nbp_Gcrit (formula s .area k) (formula s .rem k) (formula s .vol k) γ (2 * k * γ) dG (2 * γ / dG)
+      = formula s .vol k / (4 * Trans.pi / 3) * nb_bulk_Gcrit γ (2 * γ / dG) :=
+  nbp_Gcrit_sphere _ _ _ γ k dG (identity_all s k) hdG hpi
+
+/-- `gbRatio` is the `k` of the identity: `γ_gb = 2·k·γ` -/
+theorem gbRatio_spec (e γ : α) (hγ : γ ≠ 0) : 2 * gbRatio e γ * γ = e := by
+  simp only [gbRatio]; field_simp
+
+/-! ### grain-boundary factors on 0 ≤ k ≤ 1 -/
+
+theorem gb_volume_closed (k : α) :
+    gb_volumeFactor k = 2 * Trans.pi / 3 * ((1 - k) ^ 2 * (2 + k)) := by
+  simp only [gb_volumeFactor, npow]; ring
+
+theorem gb_factors_nonneg (k : α) (hpi : 0 < (Trans.pi : α)) (h0 : 0 ≤ k) (h1 : k ≤ 1) :
+    0 ≤ gb_gbRemoval k ∧ 0 ≤ gb_areaFactor k ∧ 0 ≤ gb_volumeFactor k := by
+  refine ⟨?_, ?_, ?_⟩
+  · simp only [gb_gbRemoval, npow]
+    exact mul_nonneg hpi.le (by nlinarith)
+  · simp only [gb_areaFactor]
+    exact mul_nonneg (by positivity) (by linarith)
+  · rw [gb_volume_closed]
+    exact mul_nonneg (by positivity) (mul_nonneg (sq_nonneg _) (by linarith))
+
+theorem gb_volume_pos (k : α) (hpi : 0 < (Trans.pi : α)) (h0 : 0 ≤ k) (h1 : k < 1) :
+    0 < gb_volumeFactor k := by
+  rw [gb_volume_closed]
+  exact mul_pos (by positivity) (mul_pos (pow_pos (by linarith) 2) (by linarith))
+
+/-- the volume factor strictly decreases with k on [0,1] -/
+theorem gb_volume_strictAnti (k₁ k₂ : α) (hpi : 0 < (Trans.pi : α)) (h0 : 0 ≤ k₁) (h12 : k₁ < k₂)
+    (h1 : k₂ ≤ 1) : gb_volumeFactor k₂ < gb_volumeFactor k₁ := by
+  simp only [gb_volumeFactor, npow]
+  have hc : 0 < 2 * (Trans.pi : α) / 3 := by positivity
+  apply mul_lt_mul_of_pos_left _ hc
+  have : k₁ * k₁ + k₁ * k₂ + k₂ * k₂ < 3 := by nlinarith
+  nlinarith
+
+/-- sphere values at k = 0 (the two halves of a sphere cut by the boundary plane) -/
+theorem gb_sphere_values :
+    gb_areaFactor (0 : α) = bulk_areaFactor 0 ∧ gb_volumeFactor (0 : α) = bulk_volumeFactor 0
+    ∧ gb_areaFactor (0 : α) = 4 * Trans.pi ∧ gb_volumeFactor (0 : α) = 4 * Trans.pi / 3
+    ∧ gb_gbRemoval (0 : α) = Trans.pi := by
+  simp only [gb_areaFactor, gb_volumeFactor, bulk_areaFactor, bulk_volumeFactor, gb_gbRemoval, npow]
+  refine ⟨by ring, by ring, by ring, by ring, by ring⟩
+
+/-! ### nucleationBarrier -/
+
+theorem maxS_ge_right (a b : α) : b ≤ maxS a b := by
+  unfold maxS; split
+  · exact le_refl _
+  · exact not_lt.mp ‹_›
+
+theorem maxS_ge_left (a b : α) : a ≤ maxS a b := by
+  unfold maxS; split
+  · exact le_of_lt ‹_›
+  · exact le_refl _
+
+theorem maxS_eq_max (a b : α) : maxS a b = max a b := by
+  unfold maxS; split
+  · exact (max_eq_right (le_of_lt ‹_›)).symm
+  · exact (max_eq_left (not_lt.mp ‹_›)).symm
+
+/-- positive driving force: the critical radius is at least the minimum radius -/
+theorem barrier_Rcrit_ge_Rmin (gbn : Bool) (f γ a b c e Rmin dG : α) (h : 0 < dG) :
+    Rmin ≤ (barrier gbn f γ a b c e Rmin dG).1 := by
+  simp only [barrier, h, if_true]
+  exact maxS_ge_right _ _
+
+/-- non-positive driving force: no critical radius and no barrier -/
+theorem barrier_nonpos (gbn : Bool) (f γ a b c e Rmin dG : α) (h : dG ≤ 0) :
+    barrier gbn f γ a b c e Rmin dG = (0, 0) := by
+  simp only [barrier, not_lt.mpr h, if_false]
+
+/-- bulk / dislocation sites: the barrier is non-negative for every positive driving force … -/
+theorem barrier_bulk_Gcrit_nonneg (f γ a b c e Rmin dG : α) (hpi : 0 < (Trans.pi : α)) (hγ : 0 ≤ γ) :
+    0 ≤ (barrier false f γ a b c e Rmin dG).2 := by
+  unfold barrier
+  split
+  · simp only [Bool.false_eq_true, if_false, nb_bulk_Gcrit, npow]
+    have : 0 ≤ maxS (nb_bulk_Rcrit f γ dG) Rmin * maxS (nb_bulk_Rcrit f γ dG) Rmin := mul_self_nonneg _
+    positivity
+  · exact le_refl _
+
+/-- … and strictly positive for valid parameters (so the `Gcrit != 0` guard of `nucleationRate` is inactive) -/
+theorem barrier_bulk_Gcrit_pos (f γ a b c e Rmin dG : α) (hpi : 0 < (Trans.pi : α)) (hγ : 0 < γ)
+    (hR : 0 < Rmin) (h : 0 < dG) : 0 < (barrier false f γ a b c e Rmin dG).2 := by
+  simp only [barrier, h, if_true, Bool.false_eq_true, if_false, nb_bulk_Gcrit, npow]
+  have : 0 < maxS (nb_bulk_Rcrit f γ dG) Rmin := lt_of_lt_of_le hR (maxS_ge_right _ _)
+  positivity
+
+/-- grain-boundary site types, `γ_gb = 2kγ`, factors satisfying the identity: the barrier is
+non-negative AS LONG AS `dG·Rmin ≤ 3γ` (see `barrier_gb_Gcrit_negative_witness`) -/
+theorem barrier_gb_Gcrit_nonneg_partial (f γ a b c k Rmin dG : α) (hid : a - 2 * k * b = 3 * c)
+    (hc : 0 < c) (hγ : 0 ≤ γ) (h : 0 < dG) (hlim : dG * Rmin ≤ 3 * γ) :
+    0 ≤ (barrier true f γ a b c (2 * k * γ) Rmin dG).2 := by
+  simp only [barrier, h, if_true]
+  rw [nbp_Gcrit_form a b c γ k dG _ hid, nbp_Rcrit_sphere a b c γ k dG hid hc.ne' h.ne', maxS_eq_max]
+  apply mul_nonneg hc.le (mul_nonneg (sq_nonneg _) _)
+  have : dG * max (2 * γ / dG) Rmin ≤ 3 * γ := by
+    rcases le_total (2 * γ / dG) Rmin with h1 | h1
+    · rw [max_eq_right h1]; exact hlim
+    · rw [max_eq_left h1]
+      have : dG * (2 * γ / dG) = 2 * γ := by field_simp
+      rw [this]; linarith
+  linarith
+
+/-- the barrier as a function of driving force never increases (bulk / dislocations) -/
+theorem barrier_bulk_Gcrit_antitone (f γ a b c e Rmin dG₁ dG₂ : α) (hpi : 0 < (Trans.pi : α))
+    (hγ : 0 ≤ γ) (hf : 0 ≤ f) (hR : 0 ≤ Rmin) (h1 : 0 < dG₁) (h12 : dG₁ ≤ dG₂) :
+    (barrier false f γ a b c e Rmin dG₂).2 ≤ (barrier false f γ a b c e Rmin dG₁).2 := by
+  have h2 : 0 < dG₂ := lt_of_lt_of_le h1 h12
+  simp only [barrier, h1, h2, if_true, Bool.false_eq_true, if_false, nb_bulk_Gcrit, nb_bulk_Rcrit, npow,
+    maxS_eq_max]
+  have hp : 2 * f * γ / dG₂ ≤ 2 * f * γ / dG₁ :=
+    div_le_div_of_nonneg_left (by positivity) h1 h12
+  have hm : max (2 * f * γ / dG₂) Rmin ≤ max (2 * f * γ / dG₁) Rmin := max_le_max hp (le_refl _)
+  have h0 : 0 ≤ max (2 * f * γ / dG₂) Rmin := le_max_of_le_right hR
+  have hsq : max (2 * f * γ / dG₂) Rmin * max (2 * f * γ / dG₂) Rmin
+      ≤ max (2 * f * γ / dG₁) Rmin * max (2 * f * γ / dG₁) Rmin := mul_self_le_mul_self h0 hm
+  have hc : 0 ≤ 4 * (Trans.pi : α) / 3 * γ := by positivity
+  exact mul_le_mul_of_nonneg_left hsq hc
+
+/-- the same for grain-boundary site types (no restriction on `dG·Rmin` needed) -/
+theorem barrier_gb_Gcrit_antitone (f γ a b c k Rmin dG₁ dG₂ : α) (hid : a - 2 * k * b = 3 * c)
+    (hc : 0 < c) (hγ : 0 ≤ γ) (hR : 0 ≤ Rmin) (h1 : 0 < dG₁) (h12 : dG₁ ≤ dG₂) :
+    (barrier true f γ a b c (2 * k * γ) Rmin dG₂).2 ≤ (barrier true f γ a b c (2 * k * γ) Rmin dG₁).2 := by
+  have h2 : 0 < dG₂ := lt_of_lt_of_le h1 h12
+  simp only [barrier, h1, h2, if_true]
+  rw [nbp_Gcrit_form a b c γ k _ _ hid, nbp_Gcrit_form a b c γ k _ _ hid,
+    nbp_Rcrit_sphere a b c γ k _ hid hc.ne' h1.ne', nbp_Rcrit_sphere a b c γ k _ hid hc.ne' h2.ne',
+    maxS_eq_max, maxS_eq_max]
+  apply mul_le_mul_of_nonneg_left _ hc.le
+  have hp : 2 * γ / dG₂ ≤ 2 * γ / dG₁ := div_le_div_of_nonneg_left (by positivity) h1 h12
+  have hp1 : dG₁ * (2 * γ / dG₁) = 2 * γ := by field_simp
+  have hp2 : dG₂ * (2 * γ / dG₂) = 2 * γ := by field_simp
+  have hp2' : 0 ≤ 2 * γ / dG₂ := by positivity
+  rcases le_total Rmin (2 * γ / dG₁) with hA | hB
+  · -- dG₁ unclamped: G₁ = γ p₁²
+    rw [max_eq_left hA]
+    set p₁ := 2 * γ / dG₁ with hp₁
+    set R₂ := max (2 * γ / dG₂) Rmin with hR₂
+    have hR2le : R₂ ≤ p₁ := max_le hp hA
+    have hR2ge : 2 * γ / dG₂ ≤ R₂ := le_max_left _ _
+    have hR2nn : 0 ≤ R₂ := le_trans hp2' hR2ge
+    have hx : 2 * γ ≤ dG₂ * R₂ := by
+      calc 2 * γ = dG₂ * (2 * γ / dG₂) := hp2.symm
+        _ ≤ dG₂ * R₂ := mul_le_mul_of_nonneg_left hR2ge h2.le
+    have hsq : R₂ ^ 2 ≤ p₁ ^ 2 := pow_le_pow_left₀ hR2nn hR2le 2
+    have e1 : p₁ ^ 2 * (3 * γ - dG₁ * p₁) = p₁ ^ 2 * γ := by rw [hp1]; ring
+    rw [e1]
+    by_cases hs : 0 ≤ 3 * γ - dG₂ * R₂
+    · calc R₂ ^ 2 * (3 * γ - dG₂ * R₂) ≤ R₂ ^ 2 * γ :=
+            mul_le_mul_of_nonneg_left (by linarith) (sq_nonneg _)
+        _ ≤ p₁ ^ 2 * γ := mul_le_mul_of_nonneg_right hsq hγ
+    · have : R₂ ^ 2 * (3 * γ - dG₂ * R₂) ≤ 0 :=
+        mul_nonpos_of_nonneg_of_nonpos (sq_nonneg _) (le_of_lt (not_le.mp hs))
+      exact le_trans this (mul_nonneg (sq_nonneg _) hγ)
+  · -- dG₁ clamped, hence dG₂ clamped too
+    rw [max_eq_right hB, max_eq_right (le_trans hp hB)]
+    have : Rmin ^ 2 * (3 * γ - dG₁ * Rmin) - Rmin ^ 2 * (3 * γ - dG₂ * Rmin) = Rmin ^ 3 * (dG₂ - dG₁) := by ring
+    have h3 : 0 ≤ Rmin ^ 3 * (dG₂ - dG₁) := mul_nonneg (pow_nonneg hR 3) (by linarith)
+    linarith
+
+/-! ### Zeldovich, β, τ — finite (non-zero denominators) and of the right sign, algebraic part -/
+
+theorem zeldovichW_zero (kB NA c Vm γ T : α) : zeldovichW kB NA c Vm γ T 0 = 0 := by
+  simp [zeldovichW]
+
+theorem beta_zero (a a0 x xa xb D0 D1 imp : α) :
+    beta1W a a0 x D1 0 = 0 ∧ beta2W a a0 xa xb D0 D1 0 = 0 ∧ betaMW a a0 imp 0 = 0 := by
+  simp [beta1W, beta2W, betaMW]
+
+theorem beta1_pos (a a0 x D1 R : α) (ha : 0 < a) (ha0 : a0 ≠ 0) (hx : 0 < x) (hD : 0 < D1) (hR : R ≠ 0) :
+    0 < beta1W a a0 x D1 R ∧ npow a0 4 ≠ 0 := by
+  have hnz : nz R := lt_or_gt_of_ne hR
+  have h4 : 0 < a0 ^ 4 := by positivity
+  have h2 : 0 < R ^ 2 := by positivity
+  refine ⟨?_, ?_⟩
+  · simp only [beta1W, hnz, if_true, betaBinary1, npow]
+    have e : a * (R * R) * x * D1 / (a0 * a0 * a0 * a0) = a * R ^ 2 * x * D1 / a0 ^ 4 := by ring
+    rw [e]; positivity
+  · simp only [npow]; have : a0 * a0 * a0 * a0 = a0 ^ 4 := by ring
+    rw [this]; exact h4.ne'
+
+theorem beta1_nonneg (a a0 x D1 R : α) (ha : 0 ≤ a) (hx : 0 ≤ x) (hD : 0 ≤ D1) :
+    0 ≤ beta1W a a0 x D1 R := by
+  unfold beta1W; split
+  · simp only [betaBinary1, npow]
+    have e : a * (R * R) * x * D1 / (a0 * a0 * a0 * a0) = a * R ^ 2 * x * D1 / a0 ^ 4 := by ring
+    rw [e]
+    have : 0 ≤ a0 ^ 4 := by positivity
+    positivity
+  · exact le_refl _
+
+/-- `betaBinary2`: the diffusion term `(xβ−xα)²/(xα·D₁) + (xβ−xα)²/((1−xα)·D₀)` is positive, so `1/Dfactor` is finite -/
+theorem beta2_pos (a a0 xa xb D0 D1 R : α) (ha : 0 < a) (ha0 : a0 ≠ 0) (hxa : 0 < xa) (hxa1 : xa < 1)
+    (hne : xb ≠ xa) (hD0 : 0 < D0) (hD1 : 0 < D1) (hR : R ≠ 0) :
+    0 < beta2W a a0 xa xb D0 D1 R
+    ∧ 0 < npow (xb - xa) 2 / (xa * D1) + npow (xb - xa) 2 / ((1 - xa) * D0) := by
+  have hnz : nz R := lt_or_gt_of_ne hR
+  have h4 : 0 < a0 ^ 4 := by positivity
+  have h2 : 0 < R ^ 2 := by positivity
+  have hd : 0 < (xb - xa) ^ 2 := by have : xb - xa ≠ 0 := sub_ne_zero.mpr hne; positivity
+  have h1x : 0 < 1 - xa := by linarith
+  have hD : 0 < (xb - xa) ^ 2 / (xa * D1) + (xb - xa) ^ 2 / ((1 - xa) * D0) := by positivity
+  have e2 : npow (xb - xa) 2 = (xb - xa) ^ 2 := by simp only [npow]; ring
+  refine ⟨?_, by rw [e2]; exact hD⟩
+  simp only [beta2W, hnz, if_true, betaBinary2]
+  rw [e2]
+  have e : npow R 2 = R ^ 2 := by simp only [npow]; ring
+  have e4 : npow a0 4 = a0 ^ 4 := by simp only [npow]; ring
+  rw [e, e4]; positivity
+
+theorem betaM_nonneg (a a0 imp R : α) (ha : 0 ≤ a) (hi : 0 ≤ imp) : 0 ≤ betaMW a a0 imp R := by
+  unfold betaMW; split
+  · simp only [betaMulti, npow]
+    have e : imp * (a * (R * R) / (a0 * a0 * a0 * a0)) = imp * (a * R ^ 2 / a0 ^ 4) := by ring
+    rw [e]
+    have : 0 ≤ a0 ^ 4 := by positivity
+    positivity
+  · exact le_refl _
+
+/-- incubation time: positive and finite (`θ·β·Z² ≠ 0`) under the code's guard `Z ≠ 0` and `β > 0`
+(`_calcNucleationRate` skips `β = 0`) -/
+theorem incubation_pos (θ β Z : α) (hθ : 0 < θ) (hβ : 0 < β) (hZ : Z ≠ 0) :
+    0 < incubationW θ β Z ∧ θ * β * npow Z 2 ≠ 0 := by
+  have hnz : nz Z := lt_or_gt_of_ne hZ
+  have e : npow Z 2 = Z ^ 2 := by simp only [npow]; ring
+  have h2 : 0 < Z ^ 2 := by positivity
+  refine ⟨?_, by rw [e]; positivity⟩
+  simp only [incubationW, hnz, if_true, incubationTime]
+  rw [e]; positivity
+
+theorem incubation_nonneg (θ β Z : α) (hθ : 0 ≤ θ) (hβ : 0 ≤ β) : 0 ≤ incubationW θ β Z := by
+  unfold incubationW; split
+  · simp only [incubationTime, npow]
+    have : 0 ≤ Z * Z := mul_self_nonneg Z
+    positivity
+  · exact le_refl _
+
+/-- `Z·β` does not depend on the critical radius (`Z ∝ 1/R²`, `β ∝ R²`), whatever √ and π are -/
+theorem Zbeta_independent_of_R (kB NA c Vm γ T B R R' : α) (hR : R ≠ 0) (hR' : R' ≠ 0)
+    (hNA : NA ≠ 0) (hpi : (Trans.pi : α) ≠ 0) :
+    zeldovichW kB NA c Vm γ T R * (B * R ^ 2) = zeldovichW kB NA c Vm γ T R' * (B * R' ^ 2) := by
+  have h1 : nz R := lt_or_gt_of_ne hR
+  have h2 : nz R' := lt_or_gt_of_ne hR'
+  simp only [zeldovichW, h1, h2, if_true, zeldovich, npow]
+  field_simp
+
+/-- the three impingement functions are of the form `B·R²` for `R ≠ 0` -/
+theorem beta_forms (a a0 x xa xb D0 D1 imp R : α) (hR : R ≠ 0) :
+    beta1W a a0 x D1 R = (a * x * D1 / npow a0 4) * R ^ 2
+    ∧ beta2W a a0 xa xb D0 D1 R
+        = (a * (1 / (npow (xb - xa) 2 / (xa * D1) + npow (xb - xa) 2 / ((1 - xa) * D0))) / npow a0 4) * R ^ 2
+    ∧ betaMW a a0 imp R = (imp * a / npow a0 4) * R ^ 2 := by
+  have h1 : nz R := lt_or_gt_of_ne hR
+  simp only [beta1W, beta2W, betaMW, h1, if_true, betaBinary1, betaBinary2, betaMulti]
+  refine ⟨?_, ?_, ?_⟩ <;> simp only [npow] <;> ring
+
+/-- `nucleationRate` is zero when the barrier is zero (which is what `nucleationBarrier` returns for dG ≤ 0) -/
+theorem rate_zero_of_G_zero (kB Z β T τ t : α) :
+    nucRateW kB Z β 0 T τ t = 0 ∧ steadyRateW kB Z β 0 T = 0 := by
+  simp [nucRateW, steadyRateW]
+
+/-- the rate is zero for non-positive driving force: chain barrier → rate -/
+theorem rate_zero_of_dG_nonpos (gbn : Bool) (f γ a b c e Rmin dG kB Z β T τ t : α) (h : dG ≤ 0) :
+    nucRateW kB Z β (barrier gbn f γ a b c e Rmin dG).2 T τ t = 0
+    ∧ steadyRateW kB Z β (barrier gbn f γ a b c e Rmin dG).2 T = 0 := by
+  rw [barrier_nonpos gbn f γ a b c e Rmin dG h]
+  exact rate_zero_of_G_zero kB Z β T τ t
+
+end field
+
+/-! ## real numbers: the transcendental atoms are Mathlib's functions -/
+section real
+open Real
+
+/-- interpretation of the atoms over ℝ -/
+@[instance_reducible] noncomputable def realTrans : Trans ℝ where
+  pi := Real.pi
+  sqrt := Real.sqrt
+  cbrt := fun x => if 0 ≤ x then x ^ ((1 : ℝ) / 3) else -((-x) ^ ((1 : ℝ) / 3))
+  exp := Real.exp
+  log := Real.log
+  sin := Real.sin
+  cos := Real.cos
+  tan := Real.tan
+  arcsin := Real.arcsin
+  arccos := Real.arccos
+  arctan := Real.arctan
+  tanh := Real.tanh
+  arctanh := fun x => Real.log ((1 + x) / (1 - x)) / 2
+  arccosh := fun x => Real.log (x + Real.sqrt (x ^ 2 - 1))
+  pow := fun x y => x ^ y
+  abs := fun x => |x|
+
+attribute [local instance] realTrans
+
+@[simp] theorem tpi : (Trans.pi : ℝ) = π := rfl
+@[simp] theorem tsqrt (x : ℝ) : Trans.sqrt x = √x := rfl
+@[simp] theorem texp (x : ℝ) : Trans.exp x = Real.exp x := rfl
+@[simp] theorem tarcsin (x : ℝ) : Trans.arcsin x = Real.arcsin x := rfl
+@[simp] theorem tarccos (x : ℝ) : Trans.arccos x = Real.arccos x := rfl
+@[simp] theorem tpow (x y : ℝ) : Trans.pow x y = x ^ y := rfl
+
+/-! ### edge and corner factors at k = 0 are the sphere's -/
+
+theorem arcsin_half : Real.arcsin (1 / 2) = π / 6 := by
+  rw [← Real.sin_pi_div_six]
+  exact Real.arcsin_sin (by linarith [Real.pi_pos]) (by linarith [Real.pi_pos])
+
+theorem arccos_sqrt3_half : Real.arccos (√3 / 2) = π / 6 := by
+  rw [← Real.cos_pi_div_six]
+  exact Real.arccos_cos (by linarith [Real.pi_pos]) (by linarith [Real.pi_pos])
+
+theorem edge_sphere_values :
+    edge_areaFactor (0 : ℝ) = 4 * π ∧ edge_volumeFactor (0 : ℝ) = 4 * π / 3
+    ∧ edge_areaFactor (0 : ℝ) = bulk_areaFactor 0 ∧ edge_volumeFactor (0 : ℝ) = bulk_volumeFactor 0 := by
+  have ha : edge_areaFactor (0 : ℝ) = 4 * π := by
+    simp only [edge_areaFactor, npow, tpi, tsqrt, tarcsin, tarccos]
+    norm_num [arcsin_half, Real.arccos_zero]
+    ring
+  have hv : edge_volumeFactor (0 : ℝ) = 4 * π / 3 := by
+    simp only [edge_volumeFactor, npow, tpi, tsqrt, tarcsin, tarccos]
+    norm_num [arcsin_half, Real.arccos_zero]
+    ring
+  refine ⟨ha, hv, ?_, ?_⟩
+  · rw [ha]; simp only [bulk_areaFactor, tpi]; ring
+  · rw [hv]; simp only [bulk_volumeFactor, tpi]; ring
+
+end real
+
 end KawinV.Props.C14
